@@ -370,7 +370,7 @@ func (h *H) efail(f *family, what, subject string, got, want interface{}) {
 func (h *H) partE(rng *vh.Rng) {
 	nF := 30
 	if h.a.Thorough() {
-		nF = 300
+		nF = 120 // 300 families were 60 lookup case files (5 families, ~600 KB, ~25 s each); now 12 files of 10 families
 	}
 	// status of the proposed known finding
 	status := ""
@@ -431,14 +431,18 @@ func (h *H) partE(rng *vh.Rng) {
 		h.familyLookups(f, pkg, ts)
 		knownPairs += h.familyPredicates(f, pkg, ts, status)
 	}
-	// the observed lookups, for the lookup model (shards of 5 families)
-	for i := 0; i*5 < len(h.lookupCases); i++ {
-		hi := (i + 1) * 5
+	// the observed lookups, for the lookup model (shards of 5 families; 10 in the thorough tier)
+	per := 5
+	if h.a.Thorough() {
+		per = 10
+	}
+	for i := 0; i*per < len(h.lookupCases); i++ {
+		hi := (i + 1) * per
 		if hi > len(h.lookupCases) {
 			hi = len(h.lookupCases)
 		}
 		txt := "From Coq Require Import List NArith ZArith Bool.\nFrom Verif Require Import C09.Model.\nImport ListNotations.\nOpen Scope Z_scope.\n" +
-			"Definition cases : list case := [\n " + strings.Join(h.lookupCases[i*5:hi], ";\n ") + "\n].\n" +
+			"Definition cases : list case := [\n " + strings.Join(h.lookupCases[i*per:hi], ";\n ") + "\n].\n" +
 			"Definition verif_mismatches : list Z := Eval vm_compute in mismatches cases.\nPrint verif_mismatches.\n"
 		if err := os.WriteFile(h.a.Path(fmt.Sprintf("cases_lookup_%03d.v", i)), []byte(txt), 0o644); err != nil {
 			panic(err)
